@@ -4,15 +4,21 @@
 
    All offsets and sizes are in BITS (C bit-fields are first-class rows). *)
 From Coq Require Import List NArith String Bool.
+
+(* Names (C struct, member path, Go type, Go field) are interned by the translator: a row carries the number of
+   the name, and the generated file has the table `names : list (name * string)` that gives each number its text
+   (only for reading; the theorems do not depend on it).  Comparing numbers instead of Coq strings keeps the
+   regenerated tables small and the complete enumeration fast. *)
+Definition name := N.
 Import ListNotations.
 Open Scope N_scope.
 
 (* One member of a C record as laid out by clang for the bpf target (full member path, anonymous
    struct/union levels elided as in C member access). *)
-Record crow := CRow { c_ver : N; c_struct : string; c_path : string; c_off : N; c_size : N }.
+Record crow := CRow { c_ver : N; c_struct : name; c_path : name; c_off : N; c_size : N }.
 
 (* One logical field as the Go code reads / writes it. *)
-Record grow := GRow { g_ver : N; g_struct : string; g_field : string; g_off : N; g_size : N }.
+Record grow := GRow { g_ver : N; g_struct : name; g_field : name; g_off : N; g_size : N }.
 
 (* How a Go field relates to the C member(s) it is mapped to.
    Exact      : same first bit, same number of bits.
@@ -23,14 +29,14 @@ Record grow := GRow { g_ver : N; g_struct : string; g_field : string; g_off : N;
 Inductive rel := Exact | Prefix | OffsetOnly.
 
 (* Name mapping: Go (struct, field) -> C struct and the consecutive members it covers. *)
-Record mrow := MRow { m_ver : N; m_gstruct : string; m_gfield : string;
-                      m_cstruct : string; m_cpaths : list string; m_rel : rel }.
+Record mrow := MRow { m_ver : N; m_gstruct : name; m_gfield : name;
+                      m_cstruct : name; m_cpaths : list name; m_rel : rel }.
 
-Record trow := TRow { t_ver : N; t_name : string; t_size : N }.          (* total sizes, bytes *)
+Record trow := TRow { t_ver : N; t_name : name; t_size : N }.          (* total sizes, bytes *)
 (* tm_ge = false: the Go size equals sizeof of the C type; tm_ge = true: the Go side reserves room that
    must be able to hold the C type (Go size >= sizeof) - used for the policy program's IP set key stack slot,
    which has the IPv6 key size in both families. *)
-Record tmrow := TMRow { tm_ver : N; tm_gname : string; tm_cname : string; tm_ge : bool }.
+Record tmrow := TMRow { tm_ver : N; tm_gname : name; tm_cname : name; tm_ge : bool }.
 
 Record tables := Tables {
   T_c : list crow; T_g : list grow; T_m : list mrow;
@@ -39,17 +45,17 @@ Record tables := Tables {
 Definition find_m (T : tables) (g : grow) : option mrow :=
   (* nested ifs rather than &&: under call-by-value evaluation the string comparisons are then only run when needed *)
   find (fun m => if N.eqb (m_ver m) (g_ver g) then
-                   if String.eqb (m_gstruct m) (g_struct g) then String.eqb (m_gfield m) (g_field g) else false
+                   if N.eqb (m_gstruct m) (g_struct g) then N.eqb (m_gfield m) (g_field g) else false
                  else false) (T_m T).
 
-Definition find_c (T : tables) (ver : N) (s p : string) : option crow :=
+Definition find_c (T : tables) (ver : N) (s p : name) : option crow :=
   find (fun c => if N.eqb (c_ver c) ver then
-                   if String.eqb (c_struct c) s then String.eqb (c_path c) p else false
+                   if N.eqb (c_struct c) s then N.eqb (c_path c) p else false
                  else false) (T_c T).
 
 (* The bit span [off, off+size) covered by consecutive C members; None if a member does not
    exist in the C definition or the members are not adjacent. *)
-Fixpoint span_from (T : tables) (ver : N) (s : string) (ps : list string) (off size : N) : option (N * N) :=
+Fixpoint span_from (T : tables) (ver : N) (s : name) (ps : list name) (off size : N) : option (N * N) :=
   match ps with
   | [] => Some (off, size)
   | p :: ps' =>
@@ -85,10 +91,10 @@ Definition field_size_agrees (T : tables) (g : grow) : Prop :=
   exists m off sz, find_m T g = Some m /\ span T m = Some (off, sz) /\ size_related (m_rel m) (g_size g) sz.
 
 Definition find_tm (T : tables) (t : trow) : option tmrow :=
-  find (fun m => if N.eqb (tm_ver m) (t_ver t) then String.eqb (tm_gname m) (t_name t) else false) (T_mtot T).
+  find (fun m => if N.eqb (tm_ver m) (t_ver t) then N.eqb (tm_gname m) (t_name t) else false) (T_mtot T).
 
-Definition find_ct (T : tables) (ver : N) (n : string) : option trow :=
-  find (fun c => if N.eqb (t_ver c) ver then String.eqb (t_name c) n else false) (T_ctot T).
+Definition find_ct (T : tables) (ver : N) (n : name) : option trow :=
+  find (fun c => if N.eqb (t_ver c) ver then N.eqb (t_name c) n else false) (T_ctot T).
 
 Definition total_agrees (T : tables) (t : trow) : Prop :=
   exists m c, find_tm T t = Some m /\ find_ct T (t_ver t) (tm_cname m) = Some c /\
@@ -129,7 +135,7 @@ Definition total_okb (T : tables) (t : trow) : bool :=
 
 Definition mapping_usedb (T : tables) (m : mrow) : bool :=
   existsb (fun g => if N.eqb (g_ver g) (m_ver m) then
-                      if String.eqb (g_struct g) (m_gstruct m) then String.eqb (g_field g) (m_gfield m) else false
+                      if N.eqb (g_struct g) (m_gstruct m) then N.eqb (g_field g) (m_gfield m) else false
                     else false) (T_g T).
 
 (* diagnostics: positions (0-based) of the rows a check rejects *)
